@@ -148,7 +148,11 @@ def _package_spin_results(states, values, offset, reverse_mapping):
     """
     res = AnnealResults()
     for i in range(len(states)):
-        state = {reverse_mapping[k]: v for k, v in enumerate(states[i])}
+        # integers that are not the label of a variable belong to no variable
+        state = {
+            reverse_mapping[k]: v for k, v in enumerate(states[i])
+            if k in reverse_mapping
+        }
         res.add_state(state, values[i] + offset, True)  # spin is True
     return res
 
@@ -278,9 +282,14 @@ def anneal_puso(H, num_anneals=1, anneal_duration=1000, initial_state=None,
         H = PUSO(H)
 
     if type(H) in (QUSO, PUSO, PCSO):
-        N = H.num_binary_variables
         model = H.to_puso()
-        reverse_mapping = H.reverse_mapping
+        # a mapping chosen with ``set_mapping`` may use integers beyond the
+        # number of variables; the state must reach the largest one in use
+        variables = H.variables
+        reverse_mapping = {
+            k: v for k, v in H.reverse_mapping.items() if v in variables
+        }
+        N = max(reverse_mapping, default=-1) + 1
 
     if model.degree <= 2:
         QUBOVertWarning.warn(
@@ -439,10 +448,14 @@ def anneal_quso(L, num_anneals=1, anneal_duration=1000, initial_state=None,
         L = QUSO(L)
 
     if type(L) == QUSO:
-        N = L.num_binary_variables
         model = L.to_quso()
-        # mapping = L.mapping
-        reverse_mapping = L.reverse_mapping
+        # a mapping chosen with ``set_mapping`` may use integers beyond the
+        # number of variables; the state must reach the largest one in use
+        variables = L.variables
+        reverse_mapping = {
+            k: v for k, v in L.reverse_mapping.items() if v in variables
+        }
+        N = max(reverse_mapping, default=-1) + 1
 
     # solve `model`, convert solutions back to `L`
 
